@@ -152,15 +152,14 @@ theorem brute_force_locals_miss_module_names :
 
 /-- **what a function reaches through the imports of its body is looked up, as Python resolves it**: the objects (full paths)
 and the module names the analysis looks up are, occurrence by occurrence, those that Python's scoping rules give - for every
-body whose imports are from accepted packages (`impsOK`: the other imports do not take part in the analysis) and whose
-variables do not have the name of an imported root package (`varsOK`: the root of a path is a name like any other for the
-visitors). Imports bind in their whole scope, are hidden by the nested scopes that bind the name, and are not seen outside. -/
-theorem imported_names_resolved_as_python_does (acc : Imports.Path → Bool) (isRoot : String → Bool) (params : List String)
-    (body : Imports.Stmt) (hb : Imports.stmtOK acc isRoot body = true)
-    (hv : Imports.varsOK isRoot (params ++ Imports.boundS body) = true)
-    (hi : Imports.impsOK acc isRoot (Imports.impsS body) = true) :
+body whose imports are from accepted packages (`impsOK`: the other imports do not take part in the analysis). Imports bind in
+their whole scope, are hidden by the nested scopes that bind the name, are not seen outside, and the object they denote is
+looked up by its full name, which no name of the function can hide. -/
+theorem imported_names_resolved_as_python_does (acc : Imports.Path → Bool) (params : List String)
+    (body : Imports.Stmt) (hb : Imports.stmtOK acc body = true)
+    (hi : Imports.impsOK acc (Imports.impsS body) = true) :
     Imports.ddsRefs acc params body = Imports.pyRefs params body :=
-  Imports.dds_refs_eq acc isRoot params body hb hv hi
+  Imports.dds_refs_eq acc params body hb hi
 
 /-- a scope that binds one name to two objects, one of them accepted, is refused: the analysis cannot tell which one is used -/
 theorem name_with_two_import_bindings_refused (acc : Imports.Path → Bool) (params : List String) (body : Imports.Stmt)
@@ -168,20 +167,23 @@ theorem name_with_two_import_bindings_refused (acc : Imports.Path → Bool) (par
   Imports.analyse_refuses acc params body h
 
 /-- ... and when no name has two bindings, the binding that is looked up is the only one the name has -/
-theorem the_binding_looked_up_is_the_only_one (acc : Imports.Path → Bool) (isRoot : String → Bool)
-    {imps : List (String × Imports.Path)} (hok : Imports.impsOK acc isRoot imps = true) (h : Imports.ambImps acc imps = false)
+theorem the_binding_looked_up_is_the_only_one (acc : Imports.Path → Bool)
+    {imps : List (String × Imports.Path)} (hok : Imports.impsOK acc imps = true) (h : Imports.ambImps acc imps = false)
     {x : String} {p : Imports.Path} (hm : (x, p) ∈ imps) : imps.lookup x = some p :=
-  Imports.lookup_unique acc isRoot hok h hm
+  Imports.lookup_unique acc hok h hm
 
 /-- the computations before the `fix:` commits missed objects: without any resolution (the pinned tree) an imported name was
 looked up in the module of the function; resolved in the order of the text, a use that precedes the import in the text was
-missed, and the import of a nested function hid a module name of the enclosing one -/
+missed, and the import of a nested function hid a module name of the enclosing one; written as a chain of attributes from the
+root package, the path was hidden by a local variable with the name of that package -/
 theorem earlier_resolutions_of_imports_were_wrong :
     (.path ["lz", "model"] ∈ Imports.pyRefs [] Imports.lazyImport ∧ .path ["lz", "model"] ∉ Imports.unresolvedRefs [] Imports.lazyImport) ∧
     (.path ["lz", "fast"] ∈ Imports.pyRefs [] Imports.useBeforeImport ∧
       .path ["lz", "fast"] ∉ Imports.textRefs Imports.accLz [] Imports.useBeforeImport) ∧
-    (.glob "h" ∈ Imports.pyRefs [] Imports.nestedImport ∧ .glob "h" ∉ Imports.textRefs Imports.accLz [] Imports.nestedImport) :=
-  ⟨Imports.unresolved_misses_import, Imports.text_order_misses_use_before_import, Imports.text_order_leaks_nested_import⟩
+    (.glob "h" ∈ Imports.pyRefs [] Imports.nestedImport ∧ .glob "h" ∉ Imports.textRefs Imports.accLz [] Imports.nestedImport) ∧
+    (.path ["lz", "fast"] ∈ Imports.pyRefs [] Imports.rootAsLocal ∧ .path ["lz", "fast"] ∉ Imports.chainRefs Imports.accLz [] Imports.rootAsLocal) :=
+  ⟨Imports.unresolved_misses_import, Imports.text_order_misses_use_before_import, Imports.text_order_leaks_nested_import,
+    Imports.chain_of_attributes_hidden_by_a_local⟩
 
 /-! ## The order in which the calls of an expression are analysed (outside the pipeline model: calls nested in arguments) -/
 
